@@ -1,6 +1,7 @@
 import HopModel.Driver.C14
 import HopModel.Driver.C20
 import HopModel.Driver.C06
+import HopModel.Driver.C07
 
 def main (args : List String) : IO UInt32 := do
   match args with
@@ -8,6 +9,9 @@ def main (args : List String) : IO UInt32 := do
   | "C20" :: rest => Driver.C20.main rest; return 0
   | "C06" :: rest => Driver.C06.main rest; return 0
   | "C06t" :: rest => Driver.C06.mainT rest; return 0
+  | "C07" :: rest => Driver.C07.main rest; return 0
+  | "C07e2e" :: rest => Driver.C07.mainE2E rest; return 0
+  | "C07full" :: rest => Driver.C07.mainFull rest; return 0
   | _ =>
     IO.eprintln "usage: hopmodel <Cxx> [--spec] < ops.txt > model.txt"
     return 2
